@@ -81,6 +81,12 @@ def run_case(spec):
                                                 iv['start'], iv['end'], length,
                                                 iv['tau'], iv['truncated']),
                              'engine.py:run_for')
+                if iv['poll'].cond_arg is not None and \
+                        iv['poll'].cond_arg != iv['arg']:
+                    res.fail('condition_arg', '%s invocation %d: update_condition '
+                             'was handed timestep %r, next_update %r'
+                             % (name, k + 1, iv['poll'].cond_arg, iv['arg']),
+                             'engine.py:run_for')
                 times = applied.get(('own:' + name, iv['token']), [])
                 if len(times) != 1 or not close(times[0], iv['end'], exact):
                     res.fail('applied_at', '%s invocation %d: interval [%r,%r] '
